@@ -54,7 +54,7 @@ def name_ok(cfg, name):
 
 
 def step_defined(final):
-    return final[0] in "kab"
+    return final[0] in "kabc"
 
 
 def predict(program, cfg):
